@@ -1071,7 +1071,10 @@ func (c *Compiler) compileList(node *ast.List) error {
 func (c *Compiler) compileMap(node *ast.Map) error {
 	items := node.Items()
 	count := len(items)
-	for k, v := range items {
+	// Compile the entries in source order, so that the same source always
+	// gives the same bytecode and the values are evaluated left to right.
+	for _, k := range node.OrderedKeys() {
+		v := items[k]
 		switch k := k.(type) {
 		case *ast.String:
 			if err := c.compile(k); err != nil {
